@@ -27,6 +27,8 @@ import RqModel.Lemmas.StoreSME
 import RqModel.Props.C14
 import RqModel.Props.C03
 import RqModel.Gen.ConvergeHook
+import RqModel.Gen.WalCkpt
+import RqModel.Model.WalCkpt
 namespace C01
 open RqModel.Converge RqModel.StoreSM
 
@@ -400,6 +402,14 @@ theorem code_commit_hook_cannot_veto :
     RqModel.Gen.ConvergeHook.fsmApplyCommitHooks = ["s.cdcStreamer.CommitHook"] ∧
     RqModel.Gen.ConvergeHook.otherCommitHooks = ["nil"] :=
   ⟨by decide, by decide, by decide, by decide, by decide, by decide⟩
+
+/-- every path that rebuilds from the snapshot chain (install, recovery, forced restore) agrees with
+live apply only if every WAL frame reaches the chain, i.e. SQLite never checkpoints on its own
+(C06's law). That holds on the connection `PRAGMA wal_autocheckpoint=0` was issued on — the
+read-write pool's single connection, which is never recycled (no idle limit, no lifetime). -/
+theorem code_writer_connection_never_recycled :
+    RqModel.Gen.WalCkpt.rwPoolSettings = RqModel.WalCkpt.rwPoolSettings ∧
+    RqModel.Gen.WalCkpt.autocheckpointOff = RqModel.WalCkpt.autocheckpointOff := by decide
 
 /-- both code paths that apply log entries to a database go through `CommandProcessor.Process` -/
 theorem code_single_apply_function :
